@@ -21,11 +21,21 @@ def main(tier, seed):
     # two restarts with small entries (no rotation): tail cursors persisted by block id must survive id reassignment
     tiny = dict(sizecap=4096, cfg=dict(eager_div=6))
     jobs = [dict(skel=s, backend='fd', consistency='StrictlyAtOnce', **tiny) for s in (['a,n,n,X,n,c', 'a,n,X,a,a,n,n,X,c,n', 'a,a,n,X,a,n,n,X,b,c', 'a,a,b,b,X,b,c'] + (['a,X,a,n,X,a,n,n,X,n,c'] if tier == 'thorough' else []))]
+    # systematic: every history 'a' + (1..k further operations from {a, n, b, X} with at least one restart) + final drain
+    # (unbounded batch read, count), small entries; k = 3 in the quick tier, 4 in the thorough tier
+    import itertools
+    enum = []
+    for k in range(1, (3 if tier == 'quick' else 4) + 1):
+        for tail in itertools.product('anbX', repeat=k):
+            if 'X' in tail:
+                enum.append(','.join(('a',) + tail + ('B', 'c')))
+    have = {j['skel'] for j in jobs}
+    jobs += [dict(skel=s, backend='fd', consistency='StrictlyAtOnce', **tiny) for s in enum if s not in have]
     jobs += [dict(skel=s, backend='fd', consistency='StrictlyAtOnce', **small) for s in skels]
     jobs += [dict(skel=s, backend='mmap', consistency='StrictlyAtOnce', **small) for s in skels[:2]]
     # one large entry (every accepted size) around a restart, both back ends
     jobs += [dict(skel=s, backend=b, consistency='StrictlyAtOnce', cfg=dict(eager_div=0)) for s in ['a,X,n,c'] for b in ('fd', 'mmap')]
-    bounds = dict(histories='skeletons %s (X = clean shutdown and reopen in a fresh process, R = reopen in the same process); sizes and budgets symbolic' % skels,
+    bounds = dict(histories='every history a + (<= %d operations from {append, read_next, batch read, clean restart} with >= 1 restart) + drain, entries <= 4 KiB; and skeletons %s (X = clean shutdown and reopen in a fresh process, R = reopen in the same process); sizes and budgets symbolic' % (3 if tier == 'quick' else 4, skels),
                   payload_size='0 .. 32 MiB in multi-operation histories (block spans 1..4 units); every accepted size 0 .. 2^30-256 in the single-append history a,X,n,c', reopens='<= 2 per history', files='<= 3', clock='monotone between runs (clock regression is not modelled yet)',
                   loop_unrolling='128 iterations (the recovery scan visits up to 100 units per file)', wall_budget_s=300 if tier == 'quick' else 3000)
     return enginecheck.run('C06', tier, seed, jobs, enginecheck.KINDS['C06'], bounds['wall_budget_s'], DIFF, bounds,
